@@ -18,6 +18,9 @@ CORPUS = [
     "", " ", "§", "Id.", "supra", "1 U.S. 1",
     # D23: short forms whose token does not end with the page (the pin-cite prefix must then be empty)
     "Foo, 19 CO at 12M, 15 (holding x)", "Foo, 19 CO at 12M-14 and", "See Foo, 3 F.3d at 5 (6th Cir.), 7-8.",
+    # short forms whose page has inner punctuation (the pin-cite pattern re-matches only its leading digits)
+    "Foo, 1 Unemployment Ins. Rep. at 1234.56, 2 U.S. 3 (1801).", "85 FERC at 61,012 86 FERC 61,345",
+    "See Bar, supra note 5, at 240.", "Id. note 3, at 7. Foo, 1 U.S. at 5 note 2, at 9.",
 ]
 JOKE = "eyecite"
 
